@@ -24,6 +24,20 @@ type WriteResult struct {
 	Batches [][]interface{}
 	Pending int
 	Closed  bool
+	W       Writer // the instance (nil when the constructor failed)
+}
+
+// CloseAfterFailure does what `defer w.Close()` does in a caller whose Write
+// just failed: it calls Close once more and reports a panic, if any. The error
+// Close returns is not inspected.
+func (r *WriteResult) CloseAfterFailure() (called bool, pan string) {
+	f := r.Failed()
+	if f == nil || r.W == nil || f.Panic != "" || !strings.HasPrefix(f.API, "Write") {
+		return false, ""
+	}
+	r.Sink.CurAPI = "Close(deferred)"
+	_, pan, _ = guard(r.W.Close)
+	return true, pan
 }
 
 // Failed returns the first API call that returned an error or panicked, or nil.
@@ -93,6 +107,7 @@ func ExecWriterKind(spec *WriterSpec, sink *Sink, kind string) *WriteResult {
 		res.Stopped = true
 		return res
 	}
+	res.W = w
 	var pending []interface{}
 	nWrite := 0
 	for i := range spec.Ops {
